@@ -95,6 +95,11 @@ claim("C06", "model_checking",
       "Determinism.tla: two simulations consume their own seed-determined streams while the environment may change the global generators at any time; same seed => same state, different seeds => different states, seed 0 ordinary. For every driver x table x seed (0, 1, 42, 2^32-1, 2^32+7, 2^63+5, random) three real runs are recorded (A; B with the same seed after re-seeding and advancing numpy's and Python's global generators; C with seed+1 or seed+2^32) as per-step tokens of positions/cell/numbers/momenta/move history and the log bytes; all module-level entry points of numpy.random and random are wrapped so that any use is an event regardless of state; TLC judges A = B, C != A, no global event, seed honoured, own generator used.",
       "Trusted: TLC; interception at the entry points of numpy.random / random (a C extension reading the global state directly would escape). Bound: 5 steps (quick) / 25 (thorough).", "5 C06")
 
+claim("C20", "model_checking",
+      "TLC on the protocol machine (Protocol.tla: Yield/Call/Evaluate/Save/Revert/NotAttempted/Serialize) + replay of every enumerated behaviour on the six Monte Carlo drivers with strict user objects",
+      "Protocol.tla fixes the alphabet of calls a driver may make on user objects and their order (evaluate only after a truthy call of the same entry; a falsy result is recorded as not attempted and never evaluated; every accepted change of the atom count / cell is announced exactly once to every distinct move object; serialization calls to_dict/from_dict per component); TLC checks the invariants and enumerates every behaviour (driver x trial sequence with entry, truthy/falsy move result in five spellings, verdict x optional serialize-and-rebuild) with the expected call log. Each behaviour is replayed: the schedule is imposed through the simulation's own generator, verdicts through user criteria, and the user move / criteria (no quansino base class, value-equal twin included) log and refuse every attribute access outside the protocol, __eq__ included.",
+      "Trusted: TLC; the strict objects as representatives of 'all conforming user programs'. Notifications that announce no change (empty index lists) are not judged.", "5 C20")
+
 NOT_YET = "check not built yet in this round (planned in DESIGN.md section 5); will be claimed once its spec and conformance harness exist"
 
 
